@@ -13,23 +13,23 @@ var stdAssumptions = []string{
 var thoroughExtra = map[string][]string{
 	"C01": {"SIBLING-4", "SIBLING-9", "CONV", "UN-1"},
 	"C02": {"TC", "SIBLING-1", "SIBLING-2", "BC-1", "BC-7", "PANIC-1", "EFFECT-6"},
-	"C03": {"BC-2", "BC-3", "BC-7", "TC", "DS", "SIG-1", "EFFECT-6"},
-	"C04": {"SIBLING-1", "SIBLING-3", "TOTAL-1", "IDENT-1"},
-	"C05": {"UN-1", "KINDSW", "LEX"},
-	"C06": {"SIBLING-1", "SIBLING-2", "DS", "BC-1", "TC"},
-	"C07": {"SIBLING-9", "EFFECT-3", "CONV"},
-	"C08": {"LEX", "SORTLESS-2", "DS"},
+	"C03": {"BC-2", "BC-3", "BC-7", "TC", "DS~DS-2", "SIG-1", "EFFECT-6", "TRAVERSE-1"},
+	"C04": {"SIBLING-1", "SIBLING-3", "TOTAL-1"},
+	"C05": {"UN-1", "KINDSW", "LEX~LEX-7"},
+	"C06": {"SIBLING-1", "SIBLING-2", "BC-1", "TC"},
+	"C07": {"SIBLING-9", "EFFECT-3", "CONV", "EFFECT-7"},
+	"C08": {"LEX~LEX-7", "SORTLESS-2", "DS~DS-2"},
 	"C09": {"PARSE"},
-	"C10": {"TC", "PARSE", "LAZY"},
+	"C10": {"TC", "PARSE", "LAZY", "TRAVERSE-1"},
 	"C11": {"TC", "SIBLING-1", "SIBLING-3", "SIBLING-6", "POPORDER-1", "LAZY"},
-	"C12": {"ENVCHK", "BC-3", "LEX", "PARSE", "TOTAL-1"},
+	"C12": {"ENVCHK", "BC-3", "LEX~LEX-7", "PARSE", "TOTAL-1", "EFFECT-7"},
 	"C13": {"INTGUARD-1", "SORTLESS-2", "IDENT-1", "LAYOUT", "ENVCHK"},
 	"C14": {"EFFECT-1", "EFFECT-4", "SIBLING-6", "SIBLING-9", "PAIR-1"},
 	"C15": {"LAYOUT", "SIBLING-9", "EFFECT-4", "EFFECT-6", "KINDSW"},
 	"C16": {"KINDSW", "LAYOUT", "SIBLING-4"},
-	"C17": {"TC", "KEY-1", "PAIR-1"},
+	"C17": {"TC", "PAIR-1"},
 	"C18": {"SORTLESS-2", "EFFECT-6", "KINDSW", "SIG-1"},
-	"C19": {"ENVCHK", "DS", "PARSE", "SIBLING-3", "EFFECT-3"},
+	"C19": {"ENVCHK", "DS~DS-2", "PARSE", "SIBLING-3", "EFFECT-3", "TRAVERSE-1"},
 	"C20": {"TC", "SIBLING-9", "PANIC-1", "INTGUARD-2", "EFFECT-3"},
 }
 
